@@ -95,6 +95,7 @@ func (c *conn) Close() error {
 // Returns any error encountered while closing the stream.
 func (c *conn) terminate(err error) error {
 	c.cancel(err) // Cancel the server context
+	verifYield("cli.terminate.afterCancel", c)
 	// The tx channel is only swapped out, never closed: a concurrent send() may already have loaded it,
 	// and sending on a closed channel would panic. The write loop exits through the canceled context.
 	c.tx.Swap(chan txMsg(nil))
@@ -146,6 +147,7 @@ func (c *conn) readloop() {
 			continue
 		}
 		resp.msg = m
+		verifYield("cli.read.beforeRx", c)
 
 		select {
 		case c.rx <- resp:
@@ -172,6 +174,7 @@ func (c *conn) writeloop() {
 				if errors.Is(err, net.ErrClosed) {
 					err = io.ErrClosedPipe
 				}
+				verifYield("cli.write.beforeErr", c)
 				req.err <- err
 				close(req.err)
 				// Close the client
@@ -208,6 +211,7 @@ func (c *conn) send(ctx context.Context, msg *kmip.RequestMessage) error {
 		return err
 	}
 	tx := c.tx.Load().(chan txMsg)
+	verifYield("cli.send.loaded", c)
 	// Buffered: the write loop reports a failed write even when the sender has already left
 	// through a canceled context, and must not block forever doing so.
 	errCh := make(chan error, 1)
@@ -278,5 +282,6 @@ func (c *conn) roundtrip(ctx context.Context, msg *kmip.RequestMessage) (*kmip.R
 	if err := c.send(ctx, msg); err != nil {
 		return nil, err
 	}
+	verifYield("cli.roundtrip.afterSend", c)
 	return c.recv(ctx)
 }
